@@ -167,6 +167,11 @@ func (l *List) LRange(key string, start, end int) (list [][]byte, err error) {
 		start, end = size+start, size+end
 	}
 
+	// an index counted from the tail that lies before the head starts at the head
+	if start < 0 {
+		start = 0
+	}
+
 	if end >= size {
 		end = size - 1
 	}
